@@ -167,11 +167,12 @@ def sweep(ctx, n):
                 obs = obs[np.linalg.norm(obs - pos, axis=1) > d / 2 * 1.001]
                 err = rel(get(dip, obs), get(sph, obs))
             elif kind == "mesh-converters":
-                pts = nps.uniform(-1, 1, (rng.choice([6, 8, 12]), 3))
+                csc = 10.0 ** rng.choice([0, 0, -3, -4, -5, -6, 3])  # the same body in millimetres / micrometres: another representation of it is still the same body
+                pts = nps.uniform(-1, 1, (rng.choice([6, 8, 12]), 3)) * csc
                 m0 = magpy.magnet.TriangularMesh.from_ConvexHull(points=pts, polarization=pol)
                 m1 = magpy.magnet.TriangularMesh.from_triangles(triangles=m0.to_TriangleCollection().sources, polarization=pol)
                 m2 = magpy.magnet.TriangularMesh.from_mesh(mesh=m0.mesh, polarization=pol)
-                obs = np.concatenate([far_points(nps, 3, lo=2.5, hi=6), m0.vertices.mean(axis=0)[None]])
+                obs = np.concatenate([far_points(nps, 3, lo=2.5, hi=6) * csc, m0.vertices.mean(axis=0)[None]])
                 ref = get(m0, obs)
                 err = max(rel(get(m1, obs), ref), rel(get(m2, obs), ref), rel(magpy.getH(m0.to_TriangleCollection(), obs), magpy.getH(m0, obs)))
                 # a mesh given with some inward faces, evaluated once, repaired with reorient_faces(), evaluated again
